@@ -1,3 +1,4 @@
 import G9Proofs.Props.C01
 import G9Proofs.Props.C02
 import G9Proofs.Props.C20
+import G9Proofs.Props.C04
